@@ -163,3 +163,13 @@ pub fn compact_ed(header_json: &str, payload: &[u8], key: &EdKey) -> String {
   let sig = key.sign(input.as_bytes());
   format!("{input}.{}", b64(sig))
 }
+
+// ---------------------------------------------------------------- codecs
+pub type GzEnc = flate2::write::GzEncoder<Vec<u8>>;
+pub fn gz_encoder() -> GzEnc {
+  flate2::write::GzEncoder::new(Vec::new(), flate2::Compression::default())
+}
+pub type ZlibEnc = flate2::write::ZlibEncoder<Vec<u8>>;
+pub fn zlib_encoder() -> ZlibEnc {
+  flate2::write::ZlibEncoder::new(Vec::new(), flate2::Compression::default())
+}
